@@ -71,7 +71,34 @@ def run(ctx):
             clo = mir.trace_aggregate(f, t["args"][1])
             cf = fb.by_path(mir.norm(clo["kind"]["def"]), f.crate) if clo and clo["kind"]["k"] == "closure" else None
             if cf is None:
-                ctx.report("C19-global-census", "access/%s/closure" % owner, "accessor closure not found (fail closed)", where_of(f, t))
+                # the accessor is not a closure (e.g. `KEY.with(Rc::clone)`): the shared handle comes back to this function;
+                # follow it here — it may only be cloned, dereferenced, read, or become the parent of a new child scope
+                fnc = mir.op_const(t["args"][1]) if len(t["args"]) > 1 else None
+                hands_out = fnc and "fn" in fnc and mir.norm(fnc["fn"].get("resolved") or fnc["fn"]["def"]) in (
+                    "<std::rc::Rc as std::clone::Clone>::clone", "std::clone::Clone::clone")
+                if not hands_out:
+                    ctx.undecided("C19-global-census", "access/%s/closure" % owner, "the thread-local is accessed with something other than a "
+                                  "closure or Rc::clone: cannot follow where the shared object goes", where_of(f, t))
+                    continue
+                pf = Prov(f)
+                shared = {l for l in range(len(f.locals)) if ("call", b, c) in pf.roots(l)}
+                bad_uses = []
+                for bb, tt in f.calls():
+                    cc = callee(tt) or ""
+                    for k, a in enumerate(tt["args"]):
+                        if mir.op_local(a) in shared and bb != b:
+                            if cc in ("<std::rc::Rc as std::clone::Clone>::clone", "<std::rc::Rc as std::ops::Deref>::deref", "environment::LexicalScope::get",
+                                      "std::rc::Rc::new") or (cc == "environment::LexicalScope::new_child" and k == 0):
+                                continue
+                            bad_uses.append(cc)
+                ret_roots = {x for _, x in pf.call_roots(0)}
+                if ("call", b, c) in pf.roots(0) and "environment::LexicalScope::new_child" not in ret_roots:
+                    bad_uses.append("returned as it is")
+                ctx.inst("C19-global-census", "confinement/%s" % owner, {"confined": not bad_uses})
+                for u in sorted(set(bad_uses)):
+                    ctx.report("C19-global-census", "escape/%s/%s" % (owner, u.rsplit("::", 1)[-1]),
+                               "the thread-local shared by all interpreter instances (%s) is handed out by %s and then %s: state written "
+                               "through one instance is observed by every other" % (kty, owner, u), where_of(f, t))
                 continue
             why = confinement(ctx, fb, cf)
             ctx.inst("C19-global-census", "confinement/" + cf.name, {"confined": not why})
